@@ -443,13 +443,29 @@ func (fr *Frame) builtin(st *State, name string, args []Value, cc *ssa.CallCommo
 }
 
 func (st *State) mapLen(mo *MapObj) *Term {
-	if mo.Base == nil && len(mo.Entries) == 0 {
-		return Int(0)
+	// exact: fold over the update log, each store/delete changes the size iff the key was absent/present
+	var l *Term
+	if mo.Base == nil {
+		l = Int(0)
+	} else {
+		l = UF("map.len", SInt, mo.Base)
+		st.assume(Le(Int(0), l))
 	}
-	// unknown in general
-	n := Var(st.eng.fresh("maplen"), SInt)
-	st.assume(Le(Int(0), n))
-	return n
+	for i, e := range mo.Entries {
+		prefix := &MapObj{T: mo.T, Base: mo.Base, Entries: mo.Entries[:i]}
+		_, had, err := st.mapGet(prefix, e.K)
+		if err != nil {
+			n := Var(st.eng.fresh("maplen"), SInt)
+			st.assume(Le(Int(0), n))
+			return n
+		}
+		if e.Del {
+			l = Sub(l, Ite(had, Int(1), Int(0)))
+		} else {
+			l = Add(l, Ite(had, Int(0), Int(1)))
+		}
+	}
+	return l
 }
 
 // ---------------------------------------------------------------- contracts at call sites
@@ -579,7 +595,25 @@ func (fr *Frame) applyContract(st *State, ctr *Contract, name string, sig *types
 		ps.trace = append(ps.trace, "panic-in:"+short)
 		outs = append(outs, Outcome{St: ps, Panic: true, PanicV: ps.freshNonNilIface("panicval")})
 	}
+	// clauses that speak about the callee's internal calls (via post-lets) say nothing to the caller
+	plets := map[string]bool{}
 	for _, cl := range ctr.Clauses {
+		if cl.Kind == "plet" {
+			plets[cl.Var] = true
+		}
+	}
+	for _, cl := range ctr.Clauses {
+		if cl.Kind == "ensures" {
+			skip := false
+			for id := range identsOf(cl.Expr) {
+				if plets[id] {
+					skip = true
+				}
+			}
+			if skip || strings.Contains(cl.Src, "called(") || strings.Contains(cl.Src, "callres(") || strings.Contains(cl.Src, "callarg(") {
+				continue
+			}
+		}
 		switch cl.Kind {
 		case "ensures":
 			wasDead := st.dead
@@ -725,6 +759,10 @@ func (fr *Frame) havocLoop(st *State, li *loopInfo, ws *dryCtx) {
 			delete(fr.envAddr, ph.Comment)
 		}
 	}
+	fr.havocWrites(st, ws)
+}
+
+func (fr *Frame) havocWrites(st *State, ws *dryCtx) {
 	for k, fs := range ws.writes {
 		if _, ok := st.heap[k]; !ok {
 			t := ws.types[k]
